@@ -744,7 +744,7 @@ def decorate_with_checker(func: CallableT) -> CallableT:
                 violation_error = await _assert_preconditions_async(
                     preconditions=preconditions, resolved_kwargs=resolved_kwargs
                 )
-                if violation_error:
+                if violation_error is not None:
                     raise violation_error
 
                 # Capture the snapshots
@@ -769,7 +769,7 @@ def decorate_with_checker(func: CallableT) -> CallableT:
                     violation_error = await _assert_postconditions_async(
                         postconditions=postconditions, resolved_kwargs=resolved_kwargs
                     )
-                    if violation_error:
+                    if violation_error is not None:
                         raise violation_error
 
                 return result
@@ -820,7 +820,7 @@ def decorate_with_checker(func: CallableT) -> CallableT:
                     resolved_kwargs=resolved_kwargs,
                     func=func,
                 )
-                if violation_error:
+                if violation_error is not None:
                     raise violation_error
 
                 # Capture the snapshots
@@ -847,7 +847,7 @@ def decorate_with_checker(func: CallableT) -> CallableT:
                         resolved_kwargs=resolved_kwargs,
                         func=func,
                     )
-                    if violation_error:
+                    if violation_error is not None:
                         raise violation_error
 
                 return result
